@@ -134,7 +134,14 @@ def oracle(ctx):
     _schedules(ctx, ctx.report, ctx.n(25, 500))
     from props import c12 as _c12
     _r = ctx.sub_rnd('rah-schedules')
-    _rah_schedules(ctx.report, [_c12.gen_history(_r) for _ in range(ctx.n(60, 800))])
+    hists = [_c12.gen_history(_r) for _ in range(ctx.n(60, 800))]
+    # ... and histories that end with one change touching two inputs of the simulation at once (one message batch)
+    for _ in range(ctx.n(40, 400)):
+        h = _c12.gen_history(_r, length=_r.randint(2, 5))
+        for kind in _r.sample(['rahres+cyc', 'misc+shift', 'rahres', 'cyc'], 2):
+            h['ops'].append({'op': 'imp', 'k': kind, 'v': _r.choice(_c12.MULT[kind.split(':')[0]])})
+        hists.append(h)
+    _rah_schedules(ctx.report, hists)
     # simulator-backed values (reactive armor hardener): the read-order oracle of C12 on its histories
     from props import c12
     rnd = ctx.sub_rnd('rah-read-orders')
